@@ -156,6 +156,34 @@ def run(pid, tier, seed):
         rep.assumptions = ["names: 'A b', 'm.d', non-ASCII 'é€ x'; byte order of names = index order", "depth <= 2, at most one symlink",
                            "all messages carry one instant so print order = PathId order", "archives inside directories are covered by the "
                            "tar cases below only in thorough tier"]
+        # names that begin or end with white space (blank, TAB, U+3000), next to siblings that differ only by it: the same
+        # path string must name the same file whether it is an argument or a line on standard input
+        wd = os.path.join(sc, "wsnames")
+        os.makedirs(os.path.join(wd, "sub dir "))
+        wnames = [" lead.log", "lead.log", "trail.log ", "trail.log", "tab.log\t", "wide.log\u3000", "sub dir /in.log", "sub dir / both .log "]
+        wcontent = {}
+        for j, n_ in enumerate(wnames):
+            blob = b"".join(b"2024-01-01T00:00:00 src=W%d idx=%d\n" % (j, q) for q in range(2))
+            wcontent[n_] = blob
+            with open(os.path.join(wd, n_), "wb") as f:
+                f.write(blob)
+        for trial in range(3 if tier == "quick" else 12):
+            order = list(wnames)
+            rng.shuffle(order)
+            want_w = b"".join(wcontent[n_] for n_ in order)
+            k = rng.randrange(len(order) + 1)
+            m = rng.randrange(k, len(order) + 1)
+            wruns = [("ws-args", common.run_s4(["--color", "never"] + order, cwd=wd, timeout=60)),
+                     ("ws-stdin", common.run_s4(["--color", "never", "-"], cwd=wd, stdin=("\n".join(order) + "\n").encode(), timeout=60)),
+                     ("ws-split", common.run_s4(["--color", "never"] + order[:k] + ["-"] + order[m:], cwd=wd,
+                                                stdin=("\n".join(order[k:m]) + ("\n" if order[k:m] else "")).encode(), timeout=60))]
+            for label, run_ in wruns:
+                nruns += 1
+                if run_.crashed or run_.out != want_w:
+                    rep.violation("expansion:%s" % label, "%s: paths with leading / trailing white space: stdout differs from the files named "
+                                  "(rc=%s, got %d bytes, want %d)" % (label, run_.rc, len(run_.out), len(want_w)),
+                                  {"kind": "c15-ws", "order": order, "stderr": run_.err[-300:].decode(errors="replace")})
+        rep.coverage["evaluations"] = nruns
         # tar inside a walked directory: members follow the same rule as files (explicit = attempted, walked = filtered)
         d = os.path.join(sc, "tarcase", "d")
         os.makedirs(os.path.join(d, "sub dir"))
